@@ -339,8 +339,9 @@ P["C20"] = {
         "pack_outputs is modelled by its plaintext semantics (coefficients q*ib+ib-1 of ciphertext c move to q*ib + c mod ib of packed polynomial c / ib); the field trace itself belongs to C19",
         "the LWE-packing block search computes floor(log2(floor(N^0.33))) and 2^ceil(log2(input_dims)) in f64; the model uses the exact integer definitions (agreement checked by correspondence on every shape run)",
         "cost arithmetic of the block searches is exact in the model (usize overflow needs dimensions beyond 2^20; theorem block_search_sound carries that bound)",
-        "BOLT variants: the rotation / diagonal index algebra is proved (Props/C20, rotation lemmas); the end-to-end statement for all (m,r,n) is kept as BoltStatement and covered by the exhaustive small-shape "
-        "and random larger-shape end-to-end runs (labelled tests)",
+        "BOLT variants: the three helpers are MODELLED (Model/Matmul.lean: encode maps, rotation / spread schedules on slot vectors, decode maps) and compared with the code bit for bit on small degrees "
+        "(bolt_*_encx/encw/enco/run lines); proved about the model: slot actions of the rotations on the column arrangement, the baby steps of bolt_cp, the baby-step/giant-step re-indexing; "
+        "the end-to-end statements over the model (BoltCpStatement, BoltCcCrStatement, BoltCcDcStatement) are NOT proved and are covered by the model-vs-code comparison plus the end-to-end runs (labelled tests)",
         "CKKS variants of the helpers share the index maps (the code is textually the same up to the encoder call); only the BFV paths are executed here",
     ],
 }
